@@ -113,6 +113,24 @@ def run(index, tier="quick", seed=0) -> Result:
     _copy1(res, index, lambda f: (f['cls'] == 'Polyhedron' and f['top'] in ('_compute_inertia_tensor', 'centroid', 'volume', 'get_face_area', 'inertia_tensor', '_find_equations')) or 'polytri' in f['module'])
     from ..refpoint import check_reference_point
     check_reference_point(res, index, 'Polyhedron')
+    # MEAN-1: no exact measure is computed from an unweighted average of vertex coordinates (the vertex mean of a face /
+    # of the solid is its centroid only for triangles, parallelograms, regular polygons and centrally symmetric solids)
+    from ..interp import Interp as _Interp
+    for member in ("centroid", "center", "inertia_tensor", "face_centroids", "volume", "surface_area"):
+        p_ = index.effective_prop(cls, member)
+        if p_ is None or p_.getter is None:
+            continue
+        it_ = _Interp(index)
+        r_ = it_.run_entry(p_.getter, cls)
+        vm = sorted({d for (v_, _s, _n) in r_["returns"] for d in v_.deps if d[0] == "vertex-mean"})
+        k_ = f"{cls.name}.{member}"
+        if vm:
+            site = [e for e in r_["events"] if e.type == "reduce" and f"{e.fn}@{getattr(e.node, 'lineno', 0)}" == vm[0][1]]
+            res.bad("MEAN-1", k_ + ":vertex-mean", site[0].where() if site else f"{p_.getter.file}:{p_.getter.lineno}",
+                    f"{k_} depends on an unweighted average of vertex coordinates (`{site[0].src()[:60] if site else vm[0][1]}`): the vertex mean "
+                    "is the centroid only for triangles, parallelograms, regular polygons and centrally symmetric solids")
+        else:
+            res.ok("MEAN-1", k_, nontrivial=False)
     return res
 
 
